@@ -30,7 +30,7 @@ TABLE = {
     ),
     "C05": (
         "stateful (Hypothesis RuleBasedStateMachine): histories of p_next / call / chart / clear_cache / grammar transformations / cold long contexts / one sweep over all short contexts (incl. complete sentences ending in EOS) in a drawn order / the caller's own list edited in place / the parser underneath a language model, on one object; model = fresh object per query; invariant after every step",
-        "History independence and purity over ~8000 (quick) generated query histories (siblings, prefixes, repeats, clears, EOS inside contexts, cold 500+-token contexts under the default recursion limit) for 8 object kinds, on random, shared-left-corner and left-corner-cycle grammars. Exploration of histories up to 20-30 rule applications.",
+        "History independence and purity over ~8000 (quick) generated query histories (siblings, prefixes, repeats, clears, EOS inside contexts, cold 500+-token contexts under the default recursion limit) for 8 object kinds, on random, shared-left-corner and left-corner-cycle grammars; terminals also integers, incl. distinct integers with equal hashes. Exploration of histories up to 20-30 rule applications.",
         "The model is the library on a fresh object (that is the property); value correctness is C01-C04.",
     ),
     "C06": (
@@ -40,7 +40,7 @@ TABLE = {
     ),
     "C07": (
         "generated grammars (raw, with useless symbols, unproductive start, nullable and unary cycles) x transformations; validity predicates on the output written in the harness (own SCC / reachability / generating sets)",
-        "Structural postconditions of CNF, nullary/unary(-cycle) removal, binarisation, separations and trim on every generated input (non-string terminals, signed weights), trim of a re-weighted copy (map_values), has_unary_cycle. Exploration.",
+        "Structural postconditions of CNF, nullary/unary(-cycle) removal, binarisation, separations and trim on every generated input (non-string terminals, signed weights, duplicate rules of opposite weight), trim of a re-weighted copy (map_values), has_unary_cycle. Exploration.",
         "Predicates are harness code; 'useful' = reachable and generating in the result.",
     ),
     "C08": (
@@ -54,7 +54,7 @@ TABLE = {
         "Trusted: vf.cfgref.compose_total, vf.autoref.cross_section (self-tested vs brute force).",
     ),
     "C10": (
-        "generated transducer pairs; oracle = Hadamard product of the two epsilon-free cross-sections (bijection with matching path pairs); composed machine read as data and evaluated by the reference lattice recursion",
+        "generated transducer pairs (rational, Real, Float, Boolean; gapped state names; a third of the float machines re-weighted by a potential so that arcs span 1e-14..1e14 at unchanged path weights); oracle = Hadamard product of the two epsilon-free cross-sections (bijection with matching path pairs); composed machine read as data and evaluated by the reference lattice recursion",
         "Composition in both operand orders on the same two objects (both association branches), before or after the objects were evaluated; evaluation, cross-sections, transpose, projections, from_string / diag / from_pairs against relational semantics; constructor results extended by the caller must not leak; both construction APIs. Exploration.",
         "Trusted: vf.autoref.rel / compose_ref (self-tested vs path enumeration).",
     ),
@@ -65,7 +65,7 @@ TABLE = {
     ),
     "C12": (
         "generated expression trees of rational operations; oracle = denotational evaluator over truncated weighted languages (sum, Cauchy product, star as least solution); constructed automaton read as data and via the library evaluator",
-        "Union, concatenation, star, plus, reversal, zero/one, lift, from_string(s), rename, renumber on operands with epsilon arcs and initial-is-final states, nested to depth 3; operations applied twice to the same operand objects, operands evaluated before use, and every operand re-checked afterwards. Exploration.",
+        "Union, concatenation, star, plus, reversal, zero/one, lift, from_string(s), rename, renumber on operands with epsilon arcs, initial-is-final states and gapped / disjoint state names, nested to depth 3; operations applied twice to the same operand objects, operands evaluated before use, and every operand re-checked afterwards. Exploration.",
         "Star only where the series converges (generator scales operands).",
     ),
     "C13": (
@@ -100,7 +100,7 @@ TABLE = {
     ),
     "C19": (
         "generated Lark grammars printed from a harness AST x candidate texts / byte strings; oracle = reference matcher implementing the substitution semantics with Python re",
-        "Acceptance equality (accepted and rejected strings) for char_cfg and byte_cfg, both recursions, %ignore, case-insensitive literals, multi-byte terminals, near-colliding terminal names, duplicate patterns; N/V disjointness. Exploration.",
+        "Acceptance equality (accepted and rejected strings) for char_cfg and byte_cfg, both recursions, %ignore, case-insensitive literals, multi-byte terminals (also 3- and 4-byte characters sharing a byte value under different prefixes), near-colliding terminal names, duplicate patterns; N/V disjointness. Exploration.",
         "Grammars Lark rejects are discarded; acceptance only.",
     ),
     "C20": (
